@@ -12,6 +12,13 @@ import (
 
 var baseKinds = []pools.Kind{pools.OpAlloc, pools.OpRelease}
 
+// altKinds adds the implementation's second allocation entry point (pools.AltEntry); altRelKinds also its second
+// release entry point (only pool.PeerPool has one).
+var (
+	altKinds    = []pools.Kind{pools.OpAlloc, pools.OpRelease, pools.OpAllocAlt}
+	altRelKinds = []pools.Kind{pools.OpAlloc, pools.OpRelease, pools.OpAllocAlt, pools.OpReleaseAlt}
+)
+
 // statsChecked: Stats are compared after every step, except that — while a listed finding makes the first
 // Stats comparison after the 2nd epoch advance fail on every history — three quarters of the epoch cases run without
 // the Stats comparison so that exhaustion / renewal / drain are still explored beyond that point.
@@ -61,24 +68,27 @@ func TestPropEpoch(t *testing.T) {
 
 func TestPropDistSession(t *testing.T) {
 	vstat.Checks(1500, 30000)
-	kinds := []pools.Kind{pools.OpAlloc, pools.OpRelease, pools.OpReload, pools.OpRemoteSet, pools.OpRemoteDel}
+	// OpAllocAlt = AllocateWithMAC (the DHCP path: its own copy of allocate + persist + rollback)
+	kinds := []pools.Kind{pools.OpAlloc, pools.OpRelease, pools.OpReload, pools.OpRemoteSet, pools.OpRemoteDel, pools.OpAllocAlt}
 	rapid.Check(t, func(rt *rapid.T) {
 		g := pools.GenGeom(true, false).Draw(rt, "geometry")
 		echo := rapid.Bool().Draw(rt, "echo")
 		f := pools.DistFactory(g.CIDR, g.Unit, false, 0, echo, g.Class, nil)
-		ops := pools.GenOps(kinds, []int{8, 4, 2, 5, 1}, len(subs), 1, 40).Draw(rt, "ops")
+		ops := pools.GenOps(kinds, []int{5, 4, 2, 5, 1, 4}, len(subs), 1, 40).Draw(rt, "ops")
 		record(f, runHistory(rt, f, ops, runOpt{checkStats: true}))
 	})
 }
 
 func TestPropDistLease(t *testing.T) {
 	vstat.Checks(2000, 40000)
-	kinds := []pools.Kind{pools.OpAlloc, pools.OpRelease, pools.OpRenew, pools.OpAdvance}
+	// OpAllocAlt = AllocateWithMAC; OpRemoteSet/OpRemoteDel = a peer's write reaching EpochBitmapAllocator.SetAllocation /
+	// Release through the store watch
+	kinds := []pools.Kind{pools.OpAlloc, pools.OpRelease, pools.OpRenew, pools.OpAdvance, pools.OpAllocAlt, pools.OpRemoteSet, pools.OpRemoteDel}
 	rapid.Check(t, func(rt *rapid.T) {
 		cidr := pools.GenEpochNet(false).Draw(rt, "net")
 		grace := rapid.SampledFrom([]int{0, 1, 1}).Draw(rt, "grace")
 		echo := rapid.Bool().Draw(rt, "echo")
-		ops := pools.GenOps(kinds, []int{6, 2, 5, 5}, len(subs), 1, 40).Draw(rt, "ops")
+		ops := pools.GenOps(kinds, []int{4, 2, 5, 5, 3, 2, 1}, len(subs), 1, 40).Draw(rt, "ops")
 		cs := true
 		var res result
 		var f pools.Factory
@@ -101,7 +111,8 @@ func TestPropLocalAlloc(t *testing.T) {
 		if rapid.Bool().Draw(rt, "direct") {
 			f = pools.PoolAllocFactory(g.CIDR, g.Unit, g.Class, false)
 		}
-		ops := pools.GenOps(baseKinds, []int{2, 1}, len(subs), 1, 40).Draw(rt, "ops")
+		// OpAllocAlt: LocalAllocator.Allocate (no MAC) / PoolAllocator.AllocateWithOptions with DUID+IAID (DHCPv6 server)
+		ops := pools.GenOps(altKinds, []int{3, 3, 3}, len(subs), 1, 40).Draw(rt, "ops")
 		record(f, runHistory(rt, f, ops, runOpt{checkStats: true}))
 	})
 }
@@ -120,14 +131,17 @@ func TestPropDHCP6(t *testing.T) {
 	vstat.Checks(1500, 30000)
 	rapid.Check(t, func(rt *rapid.T) {
 		var f pools.Factory
-		if rapid.Bool().Draw(rt, "pd") {
+		kinds, weights := baseKinds, []int{2, 1}
+		if rapid.IntRange(0, 2).Draw(rt, "pd") == 0 {
 			g := pools.GenV6PD().Draw(rt, "pd-geometry")
 			f = pools.V6PrefixFactory(g.CIDR, g.Unit, g.Class)
 		} else {
 			g := pools.GenV6Addr().Draw(rt, "addr-geometry")
 			f = pools.V6AddrFactory(g.CIDR, g.Class)
+			// the address pool also has Decline (DHCPv6 Decline: the binding ends, the address is taken out of service)
+			kinds, weights = []pools.Kind{pools.OpAlloc, pools.OpRelease, pools.OpDecline}, []int{5, 2, 2}
 		}
-		ops := pools.GenOps(baseKinds, []int{2, 1}, len(subs), 1, 40).Draw(rt, "ops")
+		ops := pools.GenOps(kinds, weights, len(subs), 1, 40).Draw(rt, "ops")
 		record(f, runHistory(rt, f, ops, runOpt{checkStats: true}))
 	})
 }
@@ -147,7 +161,8 @@ func TestPropPeerLocal(t *testing.T) {
 	rapid.Check(t, func(rt *rapid.T) {
 		n := pools.GenV4Net().Draw(rt, "net")
 		f := pools.PeerFactory(n.CIDR, n.Gateway, n.Class)
-		ops := pools.GenOps(baseKinds, []int{2, 1}, len(subs), 1, 40).Draw(rt, "ops")
+		// OpAllocAlt/OpReleaseAlt: the requests a peer node forwards (POST /pool/allocate, DELETE /pool/release/{id})
+		ops := pools.GenOps(altRelKinds, []int{3, 2, 3, 2}, len(subs), 1, 40).Draw(rt, "ops")
 		record(f, runHistory(rt, f, ops, runOpt{checkStats: true}))
 	})
 }
